@@ -164,7 +164,12 @@ def suites(tier, rng, replay):
         rm = i % 2
         maxtip = 3 * K + 50 if i % 5 == 0 else (2 * K + 50 if i % 3 == 0 else K + 50)
         ops = gen_case(r, r.range(8, 40), maxtip)
-        cases[rm].append({"cfg": {"rm_err": rm}, "ops": ops})
+        # every seventh history on a node configured for a test network (its own genesis header and Load branch); the
+        # first queries are about the genesis block, before anything was saved and loaded again
+        if i % 7 == 3:
+            cases[rm].append({"cfg": {"rm_err": rm, "testnet": 1}, "ops": [["height", 0], ["hash", 0], ["contains", 0], ["lastheight"]] + ops})
+        else:
+            cases[rm].append({"cfg": {"rm_err": rm}, "ops": ops})
     groups = []
     for rm in (0, 1):
         for c in cases[rm]:
